@@ -449,6 +449,8 @@ fn run_history(w: &W, f: &FileModel, steps: u64, allow_faults: bool, allow_cut: 
     // or an error ("nothing fetched") is left open, so from the second read on both are accepted
     let mut reads_since_fetch = 0u32;
     let mut last_region: Option<Region> = None;
+    // model record m is record number rid_of[m] of the reader's current index
+    let mut rid_of: Vec<usize> = (0..f.recs.len()).collect();
     let mut log: Vec<serde_json::Value> = Vec::new();
     let mut prev_failed_read = false;
     let mut prev_iter_dropped = false;
@@ -498,18 +500,27 @@ fn run_history(w: &W, f: &FileModel, steps: u64, allow_faults: bool, allow_cut: 
             5 => FetchOp::AllName(w.draw(nrec as u64) as usize),
             6 => FetchOp::AllRid(w.draw(nrec as u64) as usize),
             7 => FetchOp::UnknownName,
-            8 => FetchOp::BadRid(nrec + w.draw(3) as usize),
+            8 => FetchOp::BadRid(match w.draw(6) {
+                0 => nrec + w.draw(3) as usize,
+                // a valid number plus a multiple of 2^8 / 2^16 / 2^32, and the top of the range:
+                // record numbers handled in a narrower integer type
+                1 => w.draw(nrec as u64) as usize + (1usize << 32),
+                2 => w.draw(nrec as u64) as usize + (1usize << 16) * (1 + w.draw(3) as usize),
+                3 => usize::MAX,
+                4 => w.draw(nrec as u64) as usize + 256 * (1 + nrec / 256),
+                _ => (1usize << 63) + w.draw(nrec as u64) as usize,
+            }),
             _ => FetchOp::Keep,
         };
         let fetch_res: Option<(std::io::Result<()>, Option<Region>)> = match &fop {
             FetchOp::Name(r, s, e) => Some((reader.fetch(&f.recs[*r].name, *s, *e), Some(Region { rid: *r, s: *s, e: *e }))),
-            FetchOp::Rid(r, s, e) => Some((reader.fetch_by_rid(*r, *s, *e), Some(Region { rid: *r, s: *s, e: *e }))),
+            FetchOp::Rid(r, s, e) => Some((reader.fetch_by_rid(rid_of[*r], *s, *e), Some(Region { rid: *r, s: *s, e: *e }))),
             FetchOp::AllName(r) => Some((
                 reader.fetch_all(&f.recs[*r].name),
                 Some(Region { rid: *r, s: 0, e: f.recs[*r].seq.len() as u64 }),
             )),
             FetchOp::AllRid(r) => Some((
-                reader.fetch_all_by_rid(*r),
+                reader.fetch_all_by_rid(rid_of[*r]),
                 Some(Region { rid: *r, s: 0, e: f.recs[*r].seq.len() as u64 }),
             )),
             FetchOp::UnknownName => {
@@ -589,6 +600,34 @@ fn run_history(w: &W, f: &FileModel, steps: u64, allow_faults: bool, allow_cut: 
             }
         }
 
+        // now and then the caller replaces the reader's public index: by an equal copy, or by another
+        // matching index of the same file whose rows are in a different order (record numbers then
+        // follow the new rows; names must keep meaning the same records)
+        if w.chance(1, 30) {
+            if nrec > 1 && w.chance(1, 2) {
+                let mut perm: Vec<usize> = (0..nrec).collect();
+                for i in 0..nrec {
+                    let j = i + w.draw((nrec - i) as u64) as usize;
+                    perm.swap(i, j);
+                }
+                let mut text = String::new();
+                for &m in &perm {
+                    let r = &f.recs[m];
+                    text.push_str(&format!("{}\t{}\t{}\t{}\t{}\n", r.name, r.seq.len(), r.offset, r.line_bases, r.line_bytes));
+                }
+                match Index::new(text.as_bytes()) {
+                    Ok(ix) => reader.index = ix,
+                    Err(e) => return fail("C12.f-index", format!("Index::new rejected a well-formed .fai: {}", e)),
+                }
+                for (pos, &m) in perm.iter().enumerate() {
+                    rid_of[m] = pos;
+                }
+                w.probe("index_replaced_by_permuted_index");
+            } else {
+                reader.index = reader.index.clone();
+                w.probe("index_replaced_by_its_clone");
+            }
+        }
         // ---- read part
         let rop = match w.draw(8) {
             0..=2 => ReadOp::Buffer,
@@ -1354,6 +1393,64 @@ fn ix_virtual(w: &W) -> Verdict {
         w.note("virtual_file", json!({"seq_len": seq_len, "line_bases": lb, "crlf": crlf, "total_bytes": total, "visible_bytes": v.visible_len, "fai": fai, "read_regime": chunk.name()}));
     }
     let off_of = |i: u64| offset + (i / lb) * (lb + term.len() as u64) + i % lb;
+    // The index promises billions of bases; if the file stops after a few kilobytes, a request for
+    // (nearly) all of them must end in an error soon — not in an attempt to make room for them.
+    if cut.is_none() && w.chance(1, 6) {
+        w.probe("huge_request_on_tiny_truncated_file");
+        w.fired("cut");
+        // the promised length may even be beyond what a Vec can hold
+        let (seq_len, fai) = if lb >= 60 && w.chance(1, 3) {
+            let l = (1u64 << 63) + w.draw(1000);
+            (l, format!("v\t{}\t{}\t{}\t{}\n", l, offset, lb, lb + term.len() as u64))
+        } else {
+            (seq_len, fai.clone())
+        };
+        let tiny = Rc::new(Virtual { header: v.header.clone(), line_bases: lb, term, seq_len, a, b, visible_len: offset + w.draw(5000) });
+        let src = SimSeekRead::new_virtual(w, tiny.clone(), IoCfg { chunk, eintr_pm: 0, eio_pm: 0 }, "fasta");
+        let mut reader = match IndexedReader::new(src, fai.as_bytes()) {
+            Ok(r) => r,
+            Err(e) => return fail("C12.f-index", format!("IndexedReader::new rejected a well-formed .fai: {}", e)),
+        };
+        w.clause("C12.d-must-fail");
+        w.set_budget(200_000);
+        let (s, e) = match w.draw(3) {
+            0 => (0, seq_len),
+            1 => (w.draw(100), seq_len - w.draw(100)),
+            _ => (w.draw(1000), (1u64 << 33).min(seq_len)),
+        };
+        let fr = if w.chance(1, 2) && s == 0 && e == seq_len { reader.fetch_all("v") } else { reader.fetch("v", s, e) };
+        if fr.is_err() {
+            return Ok(()); // refusing at fetch time is an error report too
+        }
+        if w.chance(1, 2) {
+            let mut buf = Vec::new();
+            if reader.read(&mut buf).is_ok() {
+                return fail("C12.d-must-fail", format!("[{}, {}) of a {}-base record on a file of {} bytes: read() returned Ok with {} bases", s, e, seq_len, tiny.visible_len, buf.len()));
+            }
+        } else {
+            match reader.read_iter() {
+                Err(_) => {}
+                Ok(it) => {
+                    let mut n = 0u64;
+                    let mut saw_err = false;
+                    for item in it {
+                        n += 1;
+                        if item.is_err() {
+                            saw_err = true;
+                        }
+                        if n > 20_000 {
+                            break;
+                        }
+                    }
+                    if !saw_err {
+                        return fail("C12.d-must-fail", format!("[{}, {}) of a {}-base record on a file of {} bytes: the iterator yielded {} items and no error", s, e, seq_len, tiny.visible_len, n));
+                    }
+                }
+            }
+        }
+        w.set_budget(u64::MAX);
+        return Ok(());
+    }
     let mut log = vec![];
     let mut steps = 0u64;
     let mut buf = b"STALE".to_vec();
@@ -1462,7 +1559,7 @@ pub fn property() -> Property {
             "start_on_line_boundary", "stop_on_line_boundary", "empty_interval_read", "iterator_dropped_half_way", "operation_after_dropped_iterator",
             "read_after_failed_read", "iterator_driven_through_adaptors", "request_related_to_previous", "re_read_without_new_fetch", "exact_read_after_failed_operation", "operation_failed_by_injected_fault", "cut_inside_requested_range",
             "cut_after_requested_range", "cut_inside_terminator_after_range", "short_file_reported_as_error", "fetch_rejected_unknown_target",
-            "file_without_final_terminator", "empty_record", "fai_rows_not_in_file_order", "magic_size_run", "large_regime", "many_records_regime", "huge_regime", "index_with_more_than_65536_records", "offsets_beyond_4gib", "allpairs_sweep", "all_partitions_sweep",
+            "file_without_final_terminator", "empty_record", "fai_rows_not_in_file_order", "magic_size_run", "large_regime", "many_records_regime", "huge_regime", "huge_request_on_tiny_truncated_file", "index_with_more_than_65536_records", "offsets_beyond_4gib", "allpairs_sweep", "all_partitions_sweep",
         ],
         quick_runs: 300_000,
         thorough_runs: 20_000_000,
